@@ -480,3 +480,124 @@ Inductive decodes_seq (rec : ty -> rst -> res (gval * rst)) (et : ty) : rst -> l
 | ds_cons s x s1 xs s' : rec et s = Ok (x, s1) -> decodes_seq rec et s1 xs s' -> decodes_seq rec et s (x :: xs) s'.
 
 Definition failed {A} (r : res A) : Prop := match r with Ok _ => False | _ => True end.
+
+(* ================= the message level: envelope + body on one protocol object ================= *)
+(* What a server does with a request (and a client with a reply):
+       let ident = protocol.read_message_begin()?;          TMessageIdentifier { name: FastStr, message_type, sequence_number }
+       let body  = <T as Message>::decode(protocol)         the generated decoder, or ApplicationException::decode
+       protocol.read_message_end()?;                         Ok(()) in every reader
+   and then identifier, value / error, protocol object and input buffer are dropped.
+   The identifier OWNS its name.  read_faststr of the in-memory readers (binary.rs 701, compact.rs, binary_unsafe.rs) is
+   FastStr::from_bytes_unchecked(split_to(len)): up to INLINE_CAP bytes are copied into the value, longer names are a
+   reference-counted slice of the INPUT BUFFER; read_faststr of the asynchronous readers is
+   FastStr::from_string(read_string()): inline up to INLINE_CAP, else the heap String.  Both are released when the
+   identifier is dropped -- unless something that outlives the call took a copy: the regenerated inventory of
+   process-wide / thread-local retention sites of pilota/src/thrift (Generated/RetainTable.v) lists every object that
+   could; the model is pessimistic about them: a site that can be mutated through a shared reference keeps what the
+   identifier holds.  On the unchanged tree there is none ([retain_sites_inert], Proofs/OwnP.v). *)
+From PV Require Import Thrift.AppMsg.   (* not re-exported: its `skip` (the runtime skipper) would shadow Gen.skip downstream *)
+From PVGen Require Export Generated.RetainTable.
+
+Inductive hold := HInputRef | HHeap.        (* a reference-counted slice of the input buffer / a heap block *)
+
+Definition name_holds (md : dmode) (name : list byte) : list hold :=
+  if Nat.ltb faststr_inline_cap (length name) then [if is_sync md then HInputRef else HHeap] else [].
+
+Definition m_message_begin (md : dmode) (p : pk) : rm msgid :=
+  match md with MSync => r_message_begin p | MAsync => a_message_begin p end.
+
+(* the retention sites this model accounts for, with the reason why each cannot retain anything *)
+Inductive inert_reason := RImmutableData.   (* a `static` of plain data without interior mutability: never written after start-up *)
+From Coq Require String.
+Module RetainAcc.
+  Import String.
+  Local Open Scope string_scope.
+  Definition accounted_retain_sites : list ((string * string * string * bool) * inert_reason) :=
+    [(("binary.rs", "static", "static VERSION_1: u32", false), RImmutableData);
+     (("binary.rs", "static", "static VERSION_MASK: u32", false), RImmutableData);
+     (("binary_unsafe.rs", "static", "static VERSION_1: u32", false), RImmutableData);
+     (("binary_unsafe.rs", "static", "static VERSION_MASK: u32", false), RImmutableData);
+     (("mod.rs", "static", "static VOID_IDENT: TStructIdentifier", false), RImmutableData);
+     (("mod.rs", "static", "static TTYPE_LOOKUP: [Option<TType>; 17]", false), RImmutableData)].
+  Definition kind_static : string := "static".
+End RetainAcc.
+Definition accounted_retain_sites := RetainAcc.accounted_retain_sites.
+(* RImmutableData is only a reason for a plain `static` whose type has no interior mutability *)
+Definition inert_justified (sr : (String.string * String.string * String.string * bool) * inert_reason) : bool :=
+  match snd sr with RImmutableData => negb (snd (fst sr)) && String.eqb (snd (fst (fst (fst sr)))) RetainAcc.kind_static end.
+
+Definition site_retains (st : String.string * String.string * String.string * bool) : bool := snd st.
+(* what is still held, after everything the call returned has been dropped, by objects that outlive the call *)
+Definition global_retained (hs : list hold) : list hold :=
+  flat_map (fun retains : bool => if retains then hs else []) retain_flags.      (* retain_flags = map site_retains retain_sites *)
+
+(* the body: a generated type, or the runtime's own ApplicationException { 1: string message, 2: i32 type } *)
+Inductive body := BType (t : ty) | BAppEx.
+
+Definition own_body (md : dmode) (kb : bool) (S : schema) (p : pk) (fuel : nat) (b : body) (s : rst) : own (gval * rst) :=
+  match b with
+  | BType t =>
+      match md, kb with
+      | MSync, true => own_decode_keep S p fuel t s       (* sync templates of a keep_unknown_fields build *)
+      | _, _ => own_decode md S p fuel t s
+      end
+  | BAppEx =>
+      (* hand-written safe code: `message` is an owned local *)
+      lift (let* (r, s') := match md with MSync => app_decode p fuel s | MAsync => app_decode_async p fuel s end in
+            Ok (GStruct [(1, GBytes (fst r)); (2, GI32 (snd r))] [], s'))
+  end.
+
+Record msg_out := mkMsgOut {
+  mo_outcome : res (msgid * gval * rst);
+  mo_stage : nat;                 (* 0: the envelope was rejected; 1: the body was rejected; 2: complete *)
+  mo_leaked : list gval;          (* values built by the body decoder that are never dropped *)
+  mo_ident : list hold;           (* what the identifier owns while it is alive *)
+  mo_retained : list hold         (* what objects that outlive the call still hold after everything was dropped *)
+}.
+
+Definition own_message (md : dmode) (kb : bool) (S : schema) (p : pk) (fuel : nat) (b : body) (s : rst) : msg_out :=
+  match m_message_begin md p s with
+  | Ok (id, s1) =>
+      (* TMessageIdentifier::new(name, ..) is the last thing read_message_begin does: from here on the name exists *)
+      let hs := name_holds md (m_name id) in
+      let r := own_body md kb S p fuel b s1 in
+      match fst r with
+      | Ok (v, s2) => mkMsgOut (Ok (id, v, s2)) 2 (snd r) hs (global_retained hs)
+      | Err e => mkMsgOut (Err e) 1 (snd r) hs (global_retained hs)
+      | Panic st => mkMsgOut (Panic st) 1 (snd r) hs (global_retained hs)
+      end
+  | Err e => mkMsgOut (Err e) 0 [] [] []          (* a name read before the failure is a local of read_message_begin *)
+  | Panic st => mkMsgOut (Panic st) 0 [] [] []
+  end.
+
+(* the class outside which the body decoder leaks nothing (F-19a), per template instance *)
+Definition body_no_heap_list (md : dmode) (kb : bool) (S : schema) (b : body) : Prop :=
+  match b with
+  | BAppEx => True
+  | BType t => match md, kb with
+               | MAsync, _ => True
+               | MSync, false => no_heap_list S t
+               | MSync, true => no_heap_list_keep S t
+               end
+  end.
+
+(* value level, for the correspondence run: does the returned value possibly refer to the input buffer / own heap?
+   (any non-empty byte string) *)
+Fixpoint bytes_val (v : gval) : bool :=
+  match v with
+  | GBytes l => match l with [] => false | _ => true end
+  | GList l | GSet l =>
+      (fix go (l : list gval) : bool := match l with [] => false | x :: r => bytes_val x || go r end) l
+  | GMap l =>
+      (fix go (l : list (gval * gval)) : bool := match l with [] => false | (a, b) :: r => bytes_val a || bytes_val b || go r end) l
+  | GStruct fs unk =>
+      (fix go (fs : list (Z * gval)) : bool := match fs with [] => false | (_, x) :: r => bytes_val x || go r end) fs
+      || match unk with [] => false | _ => true end
+  | GUnion _ x => bytes_val x
+  | GUnionUnknown _ => true
+  | _ => false
+  end.
+
+(* entry point of the runner: fresh protocol object over the bytes *)
+Definition own_message_top (md : dmode) (kb : bool) (S : schema) (p : pk) (b : body) (l : list byte) : msg_out :=
+  own_message md kb S p (length l + 80) b (mkS l r0).
